@@ -380,6 +380,8 @@ struct Agg {
     unconfirmed_timeouts: u64,
     restarts: u64,
     machinery: Vec<String>,
+    /// the run was cut short after CRASH_CAP confirmed hangs / aborts
+    stopped_early: bool,
 }
 
 impl Agg {
@@ -502,6 +504,10 @@ fn run_shard(prop: &dyn Property, tier: Tier, shard: u64, nshards: u64, agg: &Mu
     let mut careful_until: u64 = 0;
     let mut skip: Vec<u64> = vec![];
     loop {
+        if crash_cap_reached() {
+            agg.lock().unwrap().stopped_early = true;
+            return;
+        }
         let a = WorkerArgs { tier, shard, nshards, from, careful, single: None, budget_ms: None, skip: skip.clone() };
         match run_worker_to_end(id, &a, agg) {
             WorkerEnd::Done => return,
@@ -511,6 +517,10 @@ fn run_shard(prop: &dyn Property, tier: Tier, shard: u64, nshards: u64, agg: &Mu
             }
             WorkerEnd::Hang(idx, last_progress) => {
                 agg.lock().unwrap().restarts += 1;
+                if crash_cap_reached() {
+                    agg.lock().unwrap().stopped_early = true;
+                    return;
+                }
                 // confirm in a fresh process with a large budget
                 let c = WorkerArgs { tier, shard: 0, nshards: 1, from: 0, careful: false, single: Some(idx), budget_ms: Some((3 * prop.budget_ms()).max(6000)), skip: vec![] };
                 let confirm_agg = Mutex::new(Agg::default());
@@ -572,7 +582,17 @@ fn run_shard(prop: &dyn Property, tier: Tier, shard: u64, nshards: u64, agg: &Mu
     }
 }
 
+/// confirmed hangs / aborts of this run; beyond CRASH_CAP the run stops early (every one of them is a violation
+/// already, and each further one costs its full wall budget plus a confirmation run)
+static CRASHES: std::sync::atomic::AtomicU64 = std::sync::atomic::AtomicU64::new(0);
+const CRASH_CAP: u64 = 6;
+
+fn crash_cap_reached() -> bool {
+    CRASHES.load(Ordering::SeqCst) >= CRASH_CAP
+}
+
 fn record_crash(prop: &dyn Property, tier: Tier, idx: u64, kind: &str, agg: &Mutex<Agg>) {
+    CRASHES.fetch_add(1, Ordering::SeqCst);
     let mut g = agg.lock().unwrap();
     if prop.crash_is_violation() {
         let (k, w, d) = prop.crash_signature(tier, idx, kind);
@@ -716,7 +736,10 @@ pub fn check(prop: &dyn Property, tier: Tier) -> i32 {
     cov.insert("distinct_nontrivial".into(), json!(get("nontrivial")));
     cov.insert("rule".into(), json!(meta.rule));
     cov.insert("samples".into(), json!(agg.samples));
-    cov.insert("exhaustive".into(), json!(true));
+    cov.insert("exhaustive".into(), json!(!agg.stopped_early));
+    if agg.stopped_early {
+        cov.insert("stopped_early".into(), json!(format!("run cut short after {} confirmed hangs/aborts (each is reported); the remaining elements were not evaluated", CRASH_CAP)));
+    }
     cov.insert("elements".into(), json!(size));
     cov.insert("trusted_base".into(), json!(meta.trusted_base));
     cov.insert("explanation".into(), json!(meta.explanation));
@@ -764,6 +787,13 @@ pub fn check(prop: &dyn Property, tier: Tier) -> i32 {
         new_violations,
         t0.elapsed().as_secs_f64()
     );
+    if agg.stopped_early {
+        println!("NOTE: property={} run cut short after {} confirmed hangs/aborts; remaining elements not evaluated", id, CRASH_CAP);
+        if new_violations == 0 {
+            println!("MACHINERY-ERROR property={} run stopped early without a reportable violation", id);
+            return 2;
+        }
+    }
     if new_violations > 0 { 1 } else { 0 }
 }
 
